@@ -224,13 +224,33 @@ def gen_slave(rng):
     nblocks = rng.choice([1, 2, 4, 4])
     blocks = [gen_block(rng) for _ in range(nblocks)]
     idx = {t: rng.randrange(nblocks) for t in 'dcih'} if nblocks < 4 else dict(zip('dcih', rng.sample(range(4), 4)))
-    return {'blocks': blocks, 'd': idx['d'], 'c': idx['c'], 'i': idx['i'], 'h': idx['h'], 'zero': rng.random() < 0.5}
+    return {'blocks': blocks, 'd': idx['d'], 'c': idx['c'], 'i': idx['i'], 'h': idx['h'], 'zero': rng.random() < 0.5,
+            'zconf': rng.choice(['explicit', 'explicit', 'explicit-under-other-default', 'from-default'])}
+
+
+def build_slave_context(desc, **blocks):
+    """ModbusSlaveContext for desc['zero'], configured in one of the ways an application can: the keyword given explicitly;
+    given explicitly while the library-wide default (constants.Defaults.ZeroMode) says the opposite — the explicit
+    argument wins; or left out, with the library-wide default set to the wanted mode"""
+    from pymodbus.constants import Defaults
+    how = desc.get('zconf', 'explicit')
+    saved = Defaults.ZeroMode
+    try:
+        if how == 'explicit-under-other-default':
+            Defaults.ZeroMode = not desc['zero']
+            return ModbusSlaveContext(zero_mode=desc['zero'], **blocks)
+        if how == 'from-default':
+            Defaults.ZeroMode = bool(desc['zero'])
+            return ModbusSlaveContext(**blocks)
+        return ModbusSlaveContext(zero_mode=desc['zero'], **blocks)
+    finally:
+        Defaults.ZeroMode = saved
 
 
 def mk_slave(desc):
     blocks = [mk_block(b) for b in desc['blocks']]
-    return ModbusSlaveContext(di=blocks[desc['d']], co=blocks[desc['c']], ir=blocks[desc['i']],
-                              hr=blocks[desc['h']], zero_mode=desc['zero']), blocks
+    return build_slave_context(desc, di=blocks[desc['d']], co=blocks[desc['c']], ir=blocks[desc['i']],
+                               hr=blocks[desc['h']]), blocks
 
 
 def run_slave_ops(desc, ops):
